@@ -696,11 +696,13 @@ def ex_roundtrip(case, obs):
 # =================================================================================================
 # directions: import of independently written RELION data
 
-IMPORT_DEFAULT = {"names": "fmt", "half": "consistent", "order": "canonical", "verarg": "none", "extra": "no"}
+IMPORT_DEFAULT = {"names": "fmt", "half": "consistent", "order": "canonical", "verarg": "none", "extra": "no", "rowindex": "default"}
 IMPORT_DEVIATIONS = [
     ("names", "num"), ("names", "notomo"), ("names", "padded"),
     ("half", "none"), ("half", "inconsistent"), ("half", "single1"), ("half", "single2"),
     ("order", "reversed"), ("verarg", "given"), ("extra", "yes"),
+    # the RELION table handed over in memory with row labels that are not 0..N-1 (after sort_values / a boolean selection)
+    ("rowindex", "reversed"), ("rowindex", "gapped"),
 ]
 
 
@@ -841,6 +843,9 @@ def ex_import(case, obs):
         m = _lib(obs, site, "optics-2-groups" if pxsrc == "optics2" else "", cm.RelionMotl, "c03_in.star", **kw)
     else:
         df, odf = relion_frames(labels, cols, optics)
+        if opt.get("rowindex", "default") != "default" and len(df):
+            n_ = len(df)
+            df.index = list(range(n_ - 1, -1, -1)) if opt["rowindex"] == "reversed" else [3 * i + 2 for i in range(n_)]
         if odf is not None:
             kw["optics_data"] = odf
         site = "RelionMotl(relion_df)"
